@@ -112,3 +112,35 @@ func Harness_C17_quota_refusal_stateless() {
 	}
 	verif_Cover("C17.ref.done")
 }
+
+// A target client at its active-code quota: one of its codes is being activated - and the
+// activation fails at the mapping store, so the code stays unused - while somebody creates a
+// further code for the same client. The code under activation still occupies its quota slot the
+// whole time: the creation is refused, the quota is not exceeded.
+func Harness_C17_code_quota_vs_activation() {
+	verif_UseTapeRandom()
+	ctx := context.Background()
+	w := newC06World(ctx)
+	w.svc.generator = NewGenerator(models.DefaultConnectionCodeGenerator())
+	limit := 1 + verif_Choose(2)
+	w.svc.maxActiveCodesPerClient = limit
+	w.createCode(10 * time.Minute) // "abc-def-ghi"
+	for i := 1; i < limit; i++ {
+		_, err := w.svc.CreateConnectionCode(&CreateRequest{TargetClientID: 3001, TargetAddress: "tcp://10.0.0.7:3306", CreatedBy: "setup"})
+		verif_Assert("C17.cva.setup", err == nil)
+	}
+	w.maps.fail = true
+	var eAct, eNew error
+	verif_Spawn(func() {
+		_, eAct = w.svc.ActivateConnectionCode(&ActivateRequest{Code: "abc-def-ghi", ListenClientID: 2001, ListenAddress: "0.0.0.0:9001"})
+	})
+	verif_Spawn(func() {
+		_, eNew = w.svc.CreateConnectionCode(&CreateRequest{TargetClientID: 3001, TargetAddress: "tcp://10.0.0.8:3306", CreatedBy: "b"})
+	})
+	verif_Quiesce()
+	verif_Assert("C17.cva.activation_failed", eAct != nil)
+	recs, _ := w.st.Storage.QueryByPrefix("tunnox:runtime:conncode:id:", 0)
+	verif_Assert("C17.cva.never_exceeded", len(recs) <= limit)
+	verif_Assert("C17.cva.creation_refused_at_quota", eNew != nil)
+	verif_Cover("C17.cva.done")
+}
